@@ -3,7 +3,11 @@ virtual time (harness/vtime.py) by op scripts.  One output string per script lin
 
 Script lines (numbers are rationals `p/q`; seconds are relative to the start of the case):
   task <id> <F|R> <beh> | <beh> | ...   behaviour of the k-th awake: op atoms then a result atom
-        op atoms:  <clk>:s:<key>:<task>   clk.sched_abs(key, task)
+        op atoms:  !                      the task stops here in the middle of its step (holding the lock)
+                                          until `resume`; meanwhile only `adv`, `dump` and `op o <clk> s|q|c`
+                                          may follow (these calls block on the lock and complete after the
+                                          step); any other line resumes first
+                   <clk>:s:<key>:<task>   clk.sched_abs(key, task)
                    <clk>:q:<delta>:<task> clk.sched(delta, task)
                    <clk>:c                clk.clear()
                    <clk>:T:<v>            clk.tempo = v
@@ -92,6 +96,8 @@ class Case:
         self.order = ['s', 'a']
         self.tasks = {}
         self.halves = []
+        self.paused = None         # rec of the clock thread stopped inside a task step
+        self.blocked = []          # (rec, result list) of calls waiting for the lock
         self.mark = len(vt.log)
         self.arm = None
         vt.preempt = self._preempt
@@ -207,6 +213,10 @@ class Case:
     # ---- operations ----------------------------------------------------------------------
     def atom(self, a):
         p = a.split(':')
+        if p[0] == '!':
+            self.paused = self.vt._me()
+            self.vt.pause()
+            return
         if p[0] == '+':
             self.vt.advance(num(p[1]))
             return
@@ -300,6 +310,8 @@ class Case:
             budget -= 1
             if budget < 0:
                 raise RuntimeError('SPIN: clock threads keep waking without making progress')
+            if self.paused is not None:      # a task stopped in the middle of its step: the run ends here
+                return
             ks = [k for k in self.order if self.rec_state(k) == 'notified']
             if ks:
                 vt.step(self.threads[ks[0]])
@@ -326,10 +338,53 @@ class Case:
             out.append(f'{k}[' + ','.join(items) + ']')
         return ' '.join(out)
 
+    @staticmethod
+    def keeps_pause(w):
+        return w[0] in ('adv', 'dump', 'task', 'resume') or \
+            (w[0] == 'op' and w[1] == 'o' and w[3] in ('s', 'q', 'c', 'T'))
+
+    def resume(self):
+        """let the paused step go on until its thread parks again, then the calls that waited for the lock"""
+        vt = self.vt
+        res = []
+        while self.paused is not None:
+            r = self.paused
+            self.paused = None
+            vt.step(r)                       # may pause again (sets self.paused)
+        for r, out in self.blocked:
+            while not r.done and vt.step(r):
+                pass
+            res.extend(out)
+        self.blocked = []
+        return res
+
     def line(self, ln):
         w = ln.split()
+        pre = []
+        try:
+            self._auto = False
+            if self.paused is not None and not self.keeps_pause(w):
+                self._auto = True
+                rs = self.resume()
+                ev = self.events()
+                pre = ([] if ev == '-' else [ev]) + rs
+        except Exception as e:
+            return f'HARNESS-EXC:{type(e).__name__}:{e}'
+        out = self.line1(w)
+        if self._auto:
+            self._auto = False
+            return ';'.join(pre + ['|'] + ([] if out in ('-', 'noop') else [out]))
+        return out
+
+    def line1(self, w):
         vt = self.vt
         try:
+            if w[0] == 'resume':
+                if self.paused is None:
+                    return 'noop'
+                rs = self.resume()
+                ev = self.events()
+                return ';'.join(([] if ev == '-' else [ev]) + rs) or '-'
             if w[0] == 'task':
                 behs = [b.split() for b in ' '.join(w[3:]).split('|')]
                 self.make_task(int(w[1]), w[2], [b for b in behs if b])
@@ -350,6 +405,8 @@ class Case:
             if w[0] == 'op':
                 k = w[2]
                 res = []
+                if w[3] in ('s', 'q') and int(w[5]) not in self.tasks:
+                    return 'HARNESS-EXC:unknown task'
                 if w[3] == 'stop':
                     fn = lambda: self.stop(k)
                 else:
@@ -364,8 +421,11 @@ class Case:
                     guarded()
                 else:
                     r = vt.spawn(guarded, 'o')
-                    while not r.done:
-                        vt.step(r)
+                    while not r.done and vt.step(r):
+                        pass
+                    if not r.done:               # waits for the lock held by the paused step
+                        self.blocked.append((r, res))
+                        return self.events()
                 ev = self.events()
                 return ev if not res else (res[0] if ev == '-' else ev + ';' + res[0])
             if w[0] == 'half':
@@ -409,6 +469,10 @@ class Case:
     def finish(self):
         """let unfinished helper threads end, then tear the case down; -> failures of the real code"""
         bad = []
+        try:
+            self.resume()
+        except Exception as e:
+            bad.append(f'EXC:{type(e).__name__} in resume')
         try:
             for r in self.halves:
                 while not r.done:
